@@ -971,7 +971,6 @@ class Gen:
             body.append({'k': 'if', 'arms': [[['bin', '<=', ['var', nv], ['lit', '%', 0]],
                                               [{'k': 'let', 'lv': ['var', p['name']], 'e': base}]]],
                          'els': inner + [{'k': 'let', 'lv': ['var', p['name']], 'e': stepe}]})
-            sc.vars[p['name']] = rt
         else:
             body += self.block(sc, r.randint(1, 4), min(self.p['depth'], 2))
             if p['kind'] == 'function':
